@@ -1,5 +1,5 @@
 """C04 — report arithmetic is self-consistent (structural clauses)."""
-from mir import (Terms, parse_callee, show, op_place, op_const, place_proj, subterms, is_decimal_arith_assign, mk_add, mk_neg,
+from mir import (mk_field, Terms, parse_callee, show, op_place, op_const, place_proj, subterms, is_decimal_arith_assign, mk_add, mk_neg,
                  mk_mul, summary, expand_closures)
 from flow import root_of_operand
 from roles import Roles, RULES, POOL, agg_fields, guards_of, truth, is_agg
@@ -65,17 +65,17 @@ def leg_arithmetic(R, rep):
             rep.ob("R1", f"{r}:proceeds=gross−fees-of-one-computation", ok2, "net proceeds are that same gross minus apportioned fees" if ok2 else
                    f"{r}: proceeds {show(n)[:80]} is not (gross_proceeds {show(g)[:50]}) − fees", t, key=f"R1:{r}:net-vs-gross")
             # R2 forms
-            okg = isinstance(g, tuple) and g[0] == "*" and Q in g[1] and len(g[1]) == 2 and show([x for x in g[1] if x != Q][0]).endswith("as Sell).price")
+            okg = isinstance(g, tuple) and g[0] == "*" and Q in g[1] and len(g[1]) == 2 and _is_sale_field(R, b, [x for x in g[1] if x != Q][0], "price")
             rep.ob("R2", f"{r}:gross=matched×price", okg, "gross proceeds = Match.quantity × the sale's price" if okg else
                    f"{r}: gross proceeds are {show(g)[:80]}, Match.quantity is {show(Q)[:40]}", t, key=f"R2:{r}:gross")
             okf = False
             whyf = f"fee share is {show(fees_part)[:80]}"
             if isinstance(fees_part, tuple) and fees_part[0] == "*" and len(fees_part[1]) == 2:
-                fee = [x for x in fees_part[1] if show(x).endswith("as Sell).fees")]
+                fee = [x for x in fees_part[1] if not (isinstance(x, tuple) and x[0] == "/") and _is_sale_field(R, b, x, "fees")]
                 prop = [x for x in fees_part[1] if isinstance(x, tuple) and x[0] == "/"]
                 if fee and prop:
                     num, den = prop[0][1], prop[0][2]
-                    den_ok = show(den).endswith("as Sell).amount") or _param_is_sale_amount(R, b, den)
+                    den_ok = show(den).endswith("as Sell).amount") or _param_is_sale_amount(R, b, den) or _is_sale_field(R, b, den, "amount")
                     okf = num == Q and den_ok
                     whyf = "fees apportioned as sale fees × (Match.quantity ÷ sale quantity)" if okf else \
                         f"fee proportion is {show(num)[:40]} ÷ {show(den)[:40]}"
@@ -98,6 +98,26 @@ def _match_results(R, b, tb):
     return out
 
 
+def _is_sale_field(R, b, term, field, depth=0):
+    """term denotes the `field` (amount / price / fees) of the sale being matched: literally `(tx.operation as Sell).field`,
+    or a value rooted at parameters of b that every caller fills from the sale (a `SellTerms`-like carrier included)"""
+    if show(term).endswith(f"as Sell).{field}"):
+        return True
+    if depth >= 2 or not any(isinstance(x, tuple) and x and x[0] == "param" for x in subterms(term)):
+        return False
+    from mir import subst
+    sites = [(cb, ct) for cb, ci, ct in R.F.call_sites(lambda c, bid=b.id: c == bid)]
+    if not sites:
+        return False
+    for cb, ct in sites:
+        args = [R.terms(cb, 2).operand(a) for a in ct["args"]]
+        t2 = subst(term, args)
+        alts = t2[1] if isinstance(t2, tuple) and t2 and t2[0] == "phi" else (t2,)
+        if not all(_is_sale_field(R, cb, a, field, depth + 1) for a in alts):
+            return False
+    return True
+
+
 def _param_is_sale_amount(R, b, den):
     """den is a parameter of the leg producer; every call site passes the sale's own amount"""
     if not (isinstance(den, tuple) and den and den[0] == "param"):
@@ -116,6 +136,9 @@ def netting(R, rep):
     tot = [b for b in F.bodies.values() if b.crate == "cgt_core" and b.kind == "fn" and P.user_written(F, b)
            and b.ret.startswith("(rust_decimal::decimal::Decimal, rust_decimal::decimal::Decimal)") and "calculator" in b.id]
     if len(tot) != 1:
+        # the totals function is the one that takes the disposals; a `fold` step function has the same return type
+        tot = [b for b in tot if any("models::Disposal" in b.local_ty(k + 1) for k in range(b.argc))]
+    if len(tot) != 1:
         rep.unresolved("R3", "TOTALS", f"{len(tot)} calculator functions return (Decimal, Decimal)")
         return
     b = tot[0]
@@ -125,9 +148,14 @@ def netting(R, rep):
         if is_decimal_arith_assign(t["callee"]) == "AddAssign":
             r = root_of_operand(b, t["args"][0])
             adds.append((i, b.local_name(r[0]) if r else None, tb.operand(t["args"][1]), t))
+    fold = _fold_accumulations(F, b, tb) if not adds else None
     def is_leg_sum(x):
         x = expand_closures(F, x)
         return isinstance(x, tuple) and x[0] == "call" and parse_callee(x[1])[2] == "sum" and "matches" in show(x, 0) and "gain_or_loss" in show(x, 0)
+    if fold is not None:
+        # `iter().map(net).fold((0, 0), step)`: the step function's tuple alternatives are the accumulations; component 0 is
+        # the first returned total, component 1 the second (the return order is the fold's own tuple)
+        adds = [(("fold", k), ("total_gain", "total_loss")[comp], added, {"sp": None}, guards) for k, (comp, added, guards) in enumerate(fold)]
     gain = [a for a in adds if is_leg_sum(a[2])]
     loss = [a for a in adds if isinstance(a[2], tuple) and a[2][0] == "call" and parse_callee(a[2][1])[2] == "abs" and is_leg_sum(a[2][2][0])]
     rep.ob("R3", "totals:gain+=disposal-net", len(gain) == 1, "total_gain accumulates the net result of a whole disposal (sum over its legs)" if len(gain) == 1 else
@@ -139,7 +167,8 @@ def netting(R, rep):
         if len(a) != 1:
             continue
         ok = False
-        for cond, val, s in guards_of(b, tb, a[0][0]):
+        gl = a[0][4] if fold is not None else guards_of(b, tb, a[0][0])
+        for cond, val, s in gl:
             if isinstance(cond, tuple) and cond[0] == "cmp" and cond[1] == want_op and cond[3] == ZERO and truth(val) and is_leg_sum(cond[2]):
                 ok = True
             # `match net.cmp(&ZERO) { Greater => …, Less => … }`
@@ -152,7 +181,10 @@ def netting(R, rep):
     # gain and loss go to different accumulators and are returned in (gain, loss) order
     ret = tb.local(0)
     if gain and loss:
-        ok = isinstance(ret, tuple) and ret[0] == "tuple" and show(ret[1][0]).endswith(gain[0][1] or "?") and show(ret[1][1]).endswith(loss[0][1] or "?")
+        if fold is not None:
+            ok = gain[0][1] == "total_gain" and loss[0][1] == "total_loss"   # gain feeds component 0, loss component 1
+        else:
+            ok = isinstance(ret, tuple) and ret[0] == "tuple" and show(ret[1][0]).endswith(gain[0][1] or "?") and show(ret[1][1]).endswith(loss[0][1] or "?")
         rep.ob("R3", "totals:returns-(gain,loss)", ok, "returns (total_gain, total_loss) in that order" if ok else f"returns {show(ret)[:60]}", b.loc(),
                key="R3:totals:return-order")
     # every TaxYearSummary: net_gain = total_gain − total_loss from this function
@@ -165,17 +197,87 @@ def netting(R, rep):
                 stb = Terms(F, sb, inline_depth=0)
                 f = {n: stb.operand(o) for n, o in zip(rv["fields"], rv["ops"])}
                 ok = f["net_gain"] == mk_add([f["total_gain"], mk_neg(f["total_loss"])])
-                src = any(isinstance(x, tuple) and x and x[0] == "call" and x[1] == b.id for x in subterms(f["total_gain"]))
                 g, l = f["total_gain"], f["total_loss"]
-                if not src and isinstance(g, tuple) and isinstance(l, tuple) and g[0] == "field" and l[0] == "field" and g[1] == l[1] \
-                        and (g[2], l[2]) == ("0", "1") and isinstance(g[1], tuple) and g[1][0] == "param":
-                    # the (gain, loss) pair arrives as a parameter: every caller must pass the totals function's result
-                    sites = list(F.call_sites(lambda cal, sid=sb.id: cal == sid))
-                    src = bool(sites) and all(
-                        (lambda a: isinstance(a, tuple) and a and a[0] == "call" and a[1] == b.id)(Terms(F, cb2, inline_depth=0).operand(ct2["args"][g[1][1]]))
-                        for cb2, ci2, ct2 in sites)
+                # both totals are the two components of ONE call of the totals function — in this body, or handed in through
+                # parameters / a carrier struct by every caller
+                src = _from_call(F, sb, g, b.id, "0") and _from_call(F, sb, l, b.id, "1")
                 rep.ob("R3", f"{sb.short}:net=gain−loss", ok and src, "net_gain = total_gain − total_loss of the per-disposal totals" if ok and src else
                        f"net_gain is {show(f['net_gain'])[:60]} (totals from calculate_totals: {src})", sb.loc(s["sp"]), key=f"R3:{sb.short}:net-gain")
+
+
+def _from_call(F, body, term, callee, comp, depth=0):
+    """term is component `comp` of a call of `callee` (seen through parameters: every caller must pass such a value)"""
+    from mir import subst
+    for x in subterms(term):
+        if isinstance(x, tuple) and len(x) == 3 and x[0] == "field" and x[2] == comp and isinstance(x[1], tuple) and x[1] and x[1][0] == "call" and x[1][1] == callee:
+            return True
+    if depth >= 2 or not any(isinstance(x, tuple) and x and x[0] == "param" for x in subterms(term)):
+        return False
+    sites = list(F.call_sites(lambda cal, sid=body.id: cal == sid))
+    if not sites:
+        return False
+    for cb, ci, ct in sites:
+        args = [Terms(F, cb, inline_depth=1).operand(a) for a in ct["args"]]
+        if not _from_call(F, cb, subst(term, args), callee, comp, depth + 1):
+            return False
+    return True
+
+
+def _fold_accumulations(F, b, tb):
+    """b returns `<iter over its Disposal slice>.map(f).fold((ZERO, ZERO), step)`: -> [(component, added term, guards)] in b's
+    terms (the mapped element substituted for the step's element parameter), or None when b has another shape"""
+    from mir import subst, summary
+    ret = tb.local(0)
+    if not (isinstance(ret, tuple) and ret and ret[0] == "call" and parse_callee(ret[1])[2] == "fold" and len(ret[2]) == 3):
+        return None
+    recv, init, step = ret[2]
+    if init != ("tuple", (ZERO, ZERO)):
+        return None
+    sid = step[1] if isinstance(step, tuple) and step and step[0] in ("fn", "closure") else None
+    sb = F.bodies.get(sid)
+    if sb is None:
+        return None
+    # the element handed to the step: identity over the slice, or f(element) for `.map(f)`
+    elem = ("call", "core::option::Option::Some::0", (("call", "Iterator::next", (recv,)),))
+    x = recv
+    maps = []
+    while isinstance(x, tuple) and x and x[0] == "call" and parse_callee(x[1])[2] in ("map", "iter", "into_iter", "copied", "cloned"):
+        if parse_callee(x[1])[2] == "map":
+            maps.append(x[2][1])
+        x = x[2][0]
+    if not (isinstance(x, tuple) and x and x[0] == "param"):
+        return None
+    el = ("some", ("call", "<core::slice::iter::Iter<'a, T> as core::iter::traits::iterator::Iterator>::next", (("var", "iter", x),)))
+    for f in reversed(maps):
+        fid = f[1] if isinstance(f, tuple) and f and f[0] in ("fn", "closure") else None
+        summ = summary(F, fid, 1) if fid and f[0] == "fn" else None
+        if summ is None:
+            return None
+        el = subst(summ, [el])
+    off = 1 if sb.kind == "closure" else 0      # closures take their environment first
+    stb = Terms(F, sb, inline_depth=0)
+    acc = stb.local(off + 1)
+    out = []
+    for i, si, s in sb.assigns():
+        rv = s["rv"]
+        if rv["k"] != "tuple" or len(rv["ops"]) != 2 or place_proj(s["lhs"]) or sb.local_ty(s["lhs"]["l"]) != sb.ret:
+            continue
+        comps = [stb.operand(o) for o in rv["ops"]]
+        for comp in (0, 1):
+            t = comps[comp]
+            base = mk_field(acc, str(comp))
+            if t == base:
+                continue
+            if isinstance(t, tuple) and t[0] == "+" and base in t[1]:
+                rest = [y for y in t[1]]
+                rest.remove(base)
+                added = mk_add(rest)
+                sub = lambda term: subst(term, [acc if k == off else (el if k == off + 1 else ("param", k, "?")) for k in range(off + 2)])
+                guards = [(sub(cnd), v, sbk) for cnd, v, sbk in guards_of(sb, stb, i)]
+                out.append((comp, sub(added), guards))
+            else:
+                return None
+    return out or None
 
 
 def taxable_and_proceeds(R, rep):
@@ -241,7 +343,7 @@ def grouping_fields(R, rep):
             rv = s["rv"]
             if rv["k"] == "agg" and rv["adt"].endswith("models::Disposal"):
                 n += 1
-                tb = Terms(F, b, inline_depth=0)
+                tb = Terms(F, b, inline_depth=1)    # generic helpers such as `sum_over(&legs, |m| m.x)` are seen through
                 f = {k: expand_closures(F, tb.operand(o)) for k, o in zip(rv["fields"], rv["ops"])}
                 for name, leg_field in (("quantity", "quantity"), ("gross_proceeds", "gross_proceeds"), ("proceeds", "proceeds")):
                     t = f[name]
@@ -339,7 +441,13 @@ def exemption(R, rep):
         if b.id.endswith("Config::get_exemption"):
             tb = Terms(F, b, inline_depth=0)
             r = tb.local(0)
-            ok = any(isinstance(x, tuple) and x and x[0] == "call" and parse_callee(x[1])[2] == "ok_or" for x in subterms(r)) and \
+            has_ok_or = any(isinstance(x, tuple) and x and x[0] == "call" and parse_callee(x[1])[2] in ("ok_or", "ok_or_else") for x in subterms(r))
+            alts = r[1] if isinstance(r, tuple) and r and r[0] == "phi" else (r,)
+            errs = [a for a in alts if isinstance(a, tuple) and a and a[0] == "agg" and a[2] == "Err"]
+            oks = [a for a in alts if isinstance(a, tuple) and a and a[0] == "agg" and a[2] == "Ok"]
+            none_is_err = bool(errs) and bool(oks) and len(errs) + len(oks) == len(alts) and all(
+                any(isinstance(x, tuple) and x and x[0] == "call" and parse_callee(x[1])[2] == "get" for x in subterms(a)) for a in oks)
+            ok = (has_ok_or or none_is_err) and \
                 not any(isinstance(x, tuple) and x and x[0] == "call" and parse_callee(x[1])[2] in DEFAULTING for x in subterms(r))
             rep.ob("R7", "get_exemption:ok_or", ok, "an unknown year is an error inside the lookup" if ok else f"lookup returns {show(r)[:60]}", b.loc(),
                    key="R7:get_exemption:shape")
